@@ -383,7 +383,7 @@ fn gen_size(rng: &mut Rng, huge: bool) -> usize {
     }
 }
 fn gen_leaf(rng: &mut Rng, huge: bool) -> T {
-    match rng.below(16) {
+    match rng.below(17) {
         0 | 1 => {
             let n = rng.below(14);
             let cells = (0..n)
@@ -404,7 +404,7 @@ fn gen_leaf(rng: &mut Rng, huge: bool) -> T {
         4..=7 => T::Probe(gen_size(rng, huge), gen_size(rng, huge)),
         8 => T::Surface(*rng.pick(&[0usize, 1, 2, 3]), *rng.pick(&[0usize, 1, 3, 7, 20])),
         9 => T::Ascii(rng.below(9) as usize, rng.below(12) as usize),
-        10 => T::Image(rng.below(120) as usize, rng.below(70) as usize),
+        10 | 15 => T::Image(*rng.pick(&[0usize, 1, 20, 37, 74, 75, 120, 300, 500]), *rng.pick(&[0usize, 1, 15, 16, 30, 70, 200, 400])),
         11 | 12 => T::Fill,
         13 => T::Unit,
         14 => T::Bar(rng.chance(1, 2), gen_fraction(rng), gen_fraction(rng)),
@@ -1245,6 +1245,8 @@ struct Exec {
     attributed: usize,
     path_checks: usize,
     diff_checks: usize,
+    /// image views: (pixels, surface cells, cells covered by the image cell)
+    image_cells: Vec<((usize, usize), (usize, usize), (usize, usize))>,
 }
 /// `Cell` equality by content (images and glyphs compare by address in the crate)
 fn same_cell(a: Option<&Cell>, b: Option<&Cell>) -> bool {
@@ -1433,6 +1435,19 @@ fn exec(case: &Case, view: &ArcView<'static>, env: &Env, sample_rng: &mut Rng, d
     }
     if let Some(b) = first_bad {
         ex.fails.push(("find_path is not the chain of layouts containing the position".into(), "first child containing the position at every level".into(), b));
+    }
+    // the cell an image view writes is expanded by the terminal to `Cell::size` cells: they must stay inside
+    // the (clipped) rectangle of the view, hence inside the surface given
+    for (id, (win, _, _)) in acc.node.iter() {
+        let (T::Image(ph, pw), Some((r0, c0, r1, c1))) = (kinds[*id], *win) else { continue };
+        let Some(cell) = canvas.get(Position::new(r0 as usize, c0 as usize)) else { continue };
+        if let surf_n_term::render::CellKind::Image(_) = cell.kind() {
+            let ext = cell.size(&ctx);
+            ex.image_cells.push(((*ph, *pw), ((r1 - r0) as usize, (c1 - c0) as usize), (ext.height, ext.width)));
+            if r0 + ext.height as u128 > r1 || c0 + ext.width as u128 > c1 {
+                ex.fails.push((format!("image view {id}: the image cell covers cells outside of the rectangle recorded for the view"), format!("at most {}x{} cells from ({r0},{c0})", r1 - r0, c1 - c0), format!("{}x{} cells", ext.height, ext.width)));
+            }
+        }
     }
     // differential rendering: every leaf view, of every kind, changes only cells inside the rectangle the
     // layout tree records for it (composed along the path and clipped)
@@ -1645,6 +1660,9 @@ impl Runner {
                         let ans = if ex.render == "ok" { ex.probes.clone() } else { ex.render.clone() };
                         self.out.corr(&format!("c10 render {head} {} {toks}", ex.target_shape), &ans);
                     }
+                    for ((ph, pw), (sh, sw), (eh, ew)) in ex.image_cells.iter() {
+                        self.out.corr(&format!("c10 imgext {} {} {ph} {pw} {sh} {sw}", case.ppc.0, case.ppc.1), &format!("{eh} {ew}"));
+                    }
                     for ((r, c), chain) in ex.paths.iter() {
                         self.out.corr(&format!("c10 path {head} {r} {c} {toks}"), chain);
                     }
@@ -1733,6 +1751,20 @@ fn corner_cases() -> Vec<Case> {
     for p in [1usize << 40, 1 << 62, usize::MAX] {
         v.push(Case { ppc: (p, p), ..base(T::Image(2, 3), [4, 4, 4, 4], (5, 5)) });
         v.push(Case { ppc: (p, 3), ..base(T::Flex(false, 0, vec![fc(Fac::None, Al::S, false, T::Image(70, 20)), fc(Fac::Pos(4, 4), Al::E, true, T::Text(vec![TC::Img(9, 9), TC::Ch(Ch::W(1))], true))]), [0, 0, 6, 6], (6, 6)) });
+    }
+    // images larger than what is left of their rectangle after clipping: after other children overflowing the
+    // major axis, placed with an offset, rendered into a surface smaller than the layout
+    for (ph, pw) in [(300usize, 300usize), (74, 400), (500, 16), (37, 15)] {
+        let img = T::Image(ph, pw);
+        let txt = T::Text("abcdefg".chars().map(|_| TC::Ch(Ch::W(1))).collect(), true);
+        for hor in [true, false] {
+            v.push(base(T::Flex(hor, 0, vec![fc(Fac::None, Al::S, false, txt.clone()), fc(Fac::None, Al::S, false, img.clone())]), [0, 0, 4, 10], (4, 10)));
+            v.push(base(T::Flex(hor, 0, vec![fc(Fac::None, Al::S, false, probe(3, 6)), fc(Fac::None, Al::C, true, img.clone()), fc(Fac::None, Al::E, false, img.clone())]), [0, 0, 6, 12], (5, 9)));
+        }
+        v.push(base(cont(0, 0, Al::O(1), Al::O(4), [0; 4], true, img.clone()), [0, 0, 3, 10], (3, 10)));
+        v.push(base(cont(0, 0, Al::E, Al::O(7), [1, 0, 1, 0], false, img.clone()), [0, 0, 6, 10], (4, 8)));
+        v.push(base(img.clone(), [0, 0, 9, 30], (3, 7)));
+        v.push(base(img.clone(), [2, 2, 9, 30], (20, 40)));
     }
     // scroll bar: thumb offset + size at the top of the usize range; fractions outside [0, 1], NaN
     v.push(base(T::Bar(false, 1.0 - f64::EPSILON / 2.0, 1.0), [0, 0, m, 1], (3000, 1)));
